@@ -109,6 +109,26 @@ def _run(case, cfg, w):
         for ns in cfg['nss']:
             nsobj[ns] = base(ns)
             srv.register_namespace(nsobj[ns])
+    # the application's disconnect handlers look at the session of the
+    # client that is leaving (its last chance to)
+    disc_reads = []
+    if cfg.get('disc_reads', True):
+        for ns in cfg['nss']:
+            if w.mode == 'async':
+                async def on_disc(sid, *a, ns=ns):
+                    try:
+                        disc_reads.append((sid, ns, dict(
+                            await srv.get_session(sid, namespace=ns))))
+                    except Exception as e:   # noqa
+                        disc_reads.append((sid, ns, e))
+            else:
+                def on_disc(sid, *a, ns=ns):
+                    try:
+                        disc_reads.append((sid, ns, dict(
+                            srv.get_session(sid, namespace=ns))))
+                    except Exception as e:   # noqa
+                        disc_reads.append((sid, ns, e))
+            srv.on('disconnect', on_disc, namespace=ns)
     sc = Scene(w)
     model = {}          # (sid, ns) -> dict (what was last saved)
     # shadow of the known defect: what an implementation that keys the
@@ -161,6 +181,22 @@ def _run(case, cfg, w):
                          'it: %s' % (where, sid, ns, trepr(h.result),
                                      trepr(want)))
         return h.result
+
+    def check_disc_reads(where, ended):
+        """ended: [(sid, ns, what the model held when it ended)]."""
+        for sid, ns, want in ended:
+            got = [x[2] for x in disc_reads if x[0] == sid and x[1] == ns]
+            if len(got) != 1:
+                continue          # (how often it runs is property C04)
+            if isinstance(got[0], Exception):
+                v.add('get_session_raised', '%s: in the disconnect handler '
+                      'of %s [%s]: %r' % (where, sid, ns, got[0]),
+                      'in_disconnect_handler')
+            elif not typed_eq(got[0], want):
+                add_mismatch(classify(sid, ns, got[0]), '%s: the disconnect '
+                             'handler of %s [%s] read %s, last saved: %s'
+                             % (where, sid, ns, trepr(got[0]), trepr(want)))
+        del disc_reads[:]
 
     def add_mismatch(leak, detail):
         if leak.startswith('KNOWN_'):
@@ -336,6 +372,7 @@ def _run(case, cfg, w):
             sc.peers[p].send_pkt(sio.DISCONNECT, ns, None, None)
             w.settle()
             if sid:
+                check_disc_reads(where, [(sid, ns, model.get((sid, ns), {}))])
                 model.pop((sid, ns), None)
         elif k == 'sdisc':
             _, p, ns = op
@@ -345,6 +382,7 @@ def _run(case, cfg, w):
             sc.forget(p, ns)
             w.api('s', 'disconnect', sid, namespace=ns)
             w.settle()
+            check_disc_reads(where, [(sid, ns, model.get((sid, ns), {}))])
             model.pop((sid, ns), None)
         elif k == 'sever':
             p = op[1]
@@ -352,7 +390,10 @@ def _run(case, cfg, w):
                 continue
             sc.peers[p].sever(0.0)
             w.settle()
-            for ns, sid in sc.drop_transport(p):
+            dropped = sc.drop_transport(p)
+            check_disc_reads(where, [(sid, ns, model.get((sid, ns), {}))
+                                     for ns, sid in dropped])
+            for ns, sid in dropped:
                 shadow.pop(tkey(sid, ns), None)
                 model.pop((sid, ns), None)
                 gone.append((sid, ns))
